@@ -380,6 +380,8 @@ enum MapOp<P> {
     Iters,
     Arena,
     Serde,
+    /// the whole arena, slot by slot (hook): compared with the arena-level model
+    ArenaX,
     /// C14: addresses of all simultaneously live mutable references are pairwise distinct
     Alias,
     /// C14: workers on the sub-views of a recursive split, in parallel threads
@@ -661,6 +663,7 @@ fn parse_op<P: Prefix>(t: &[&str]) -> Option<Op<P>> {
         ("iters", 2) => m(MapOp::Iters),
         ("arena", 2) => m(MapOp::Arena),
         ("serde", 2) => m(MapOp::Serde),
+        ("arenax", 2) => m(MapOp::ArenaX),
         ("alias", 2) => m(MapOp::Alias),
         ("par", 3) => m(MapOp::Par(p_usize(t[2])?)),
 
@@ -916,6 +919,24 @@ fn exec<P: PT>(st: &mut State<P>, op: &Op<P>, o: &mut String, cap: usize) {
             {
                 panic!("set traversals disagree");
             }
+            {
+                let k = base.len() / 2;
+                let mut it = st.t.clone().into_iter();
+                let mut jt = st.t.iter();
+                for _ in 0..k {
+                    it.next();
+                    jt.next();
+                }
+                let it2 = it.clone();
+                let jt2 = jt.clone();
+                let rest: Vec<P> = base[k..].to_vec();
+                if coll(it, cap) != rest || coll(it2, cap) != rest
+                    || coll(jt, cap).into_iter().cloned().collect::<Vec<_>>() != rest
+                    || coll(jt2, cap).into_iter().cloned().collect::<Vec<_>>() != rest
+                {
+                    panic!("a cloned set iterator does not continue like the original");
+                }
+            }
             if let Some(ok) = P::roundtrip_set(&st.t) {
                 if !ok {
                     panic!("set serde round trip differs");
@@ -1148,6 +1169,28 @@ fn map_op<P: PT, T: Val>(
         MapOp::Clone => {
             let c = m.clone();
             let e = c == *m;
+            // `clone_from` into maps of other sizes must give the same map (self-consistency: a
+            // disagreement panics): contents, len(), is_empty(), and it must stay usable
+            for seed in 0..3u8 {
+                let mut d: PrefixMap<P, T> = PrefixMap::new();
+                for k in 0..(seed as usize * 3) {
+                    if let Some((p, v)) = saved.iter().nth(k) {
+                        d.insert(p.clone(), v.clone());
+                    }
+                }
+                if seed == 2 {
+                    d = saved.clone();
+                }
+                d.clone_from(&*m);
+                if d != *m || d.len() != m.len() || d.is_empty() != m.is_empty() || c.len() != m.len() {
+                    panic!("clone_from differs from clone");
+                }
+                let before = d.len();
+                let had = d.insert(P::zero(), T::new(7)).is_some();
+                if d.len() != before + if had { 0 } else { 1 } {
+                    panic!("clone_from left an inconsistent counter");
+                }
+            }
             m.insert(P::zero(), T::new(424242));
             m.clear();
             *m = c;
@@ -1275,6 +1318,7 @@ fn map_op<P: PT, T: Val>(
         MapOp::Q(p) => query(m, p, o, cap),
         MapOp::Iters => iters(m, o, cap),
         MapOp::Arena => arena(m, o),
+        MapOp::ArenaX => arenax(m, o),
         MapOp::Alias => alias(m, o, cap),
         MapOp::Par(k) => par(m, *k, o, cap),
         MapOp::Serde => match P::roundtrip(m) {
@@ -1924,6 +1968,42 @@ fn iters<P: PT, T: Val>(m: &mut PrefixMap<P, T>, o: &mut String, cap: usize) {
             panic!("iterator flavours disagree");
         }
     }
+    // a clone taken mid-way must continue exactly like the original, for every cloneable flavour
+    {
+        fn midway<I: Iterator + Clone>(mut it: I, k: usize, cap: usize) -> (Vec<I::Item>, Vec<I::Item>) {
+            for _ in 0..k {
+                it.next();
+            }
+            let c = it.clone();
+            (coll(it, cap), coll(c, cap))
+        }
+        let base: Vec<(P, i64)> = coll(m.iter(), cap).into_iter().map(|(p, v)| (p.clone(), v.get())).collect();
+        for k in [1usize, n / 3, n / 2] {
+            if k > n {
+                continue;
+            }
+            let rest: Vec<(P, i64)> = base[k.min(base.len())..].to_vec();
+            let (a, b) = midway(m.clone().into_iter(), k, cap);
+            let a: Vec<(P, i64)> = a.into_iter().map(|(p, v)| (p, v.get())).collect();
+            let b: Vec<(P, i64)> = b.into_iter().map(|(p, v)| (p, v.get())).collect();
+            let (ka, kb) = midway(m.clone().into_keys(), k, cap);
+            let (va, vb) = midway(m.clone().into_values(), k, cap);
+            let (ra, rb) = midway(m.keys(), k, cap);
+            let (sa, sb) = midway(m.values(), k, cap);
+            let keys: Vec<P> = rest.iter().map(|x| x.0.clone()).collect();
+            let vals: Vec<i64> = rest.iter().map(|x| x.1).collect();
+            if a != rest || b != rest || ka != keys || kb != keys
+                || va.iter().map(|v| v.get()).collect::<Vec<_>>() != vals
+                || vb.iter().map(|v| v.get()).collect::<Vec<_>>() != vals
+                || ra.into_iter().cloned().collect::<Vec<_>>() != keys
+                || rb.into_iter().cloned().collect::<Vec<_>>() != keys
+                || sa.iter().map(|v| v.get()).collect::<Vec<_>>() != vals
+                || sb.iter().map(|v| v.get()).collect::<Vec<_>>() != vals
+            {
+                panic!("a cloned iterator does not continue like the original");
+            }
+        }
+    }
     let f1 = fused3(m.iter(), cap);
     let f2 = fused3(m.keys(), cap);
     let f3 = fused3(m.values(), cap);
@@ -1931,6 +2011,33 @@ fn iters<P: PT, T: Val>(m: &mut PrefixMap<P, T>, o: &mut String, cap: usize) {
     let f5 = fused3(m.iter_mut(), cap);
     key(o, "fused=");
     w_b(o, f1 && f2 && f3 && f4 && f5);
+}
+
+
+/// `arenax X`: the arena as it is — length, free list (bottom to top of the stack), counter and,
+/// for EVERY slot (also released ones), its left link, right link and whether it holds a value.
+fn arenax<P: PT, T: Val>(m: &PrefixMap<P, T>, o: &mut String) {
+    let (alen, free, count, slots) = m.verif_arena();
+    key(o, "alen=");
+    w_u(o, alen);
+    key(o, "count=");
+    w_u(o, count);
+    key(o, "free=");
+    w_list(o, free, |o, i| w_u(o, i));
+    key(o, "slots=");
+    w_list(o, slots, |o, (l, r, v)| {
+        match l {
+            Some(i) => w_u(o, i),
+            None => o.push('-'),
+        }
+        o.push(':');
+        match r {
+            Some(i) => w_u(o, i),
+            None => o.push('-'),
+        }
+        o.push(':');
+        o.push(if v { '1' } else { '0' });
+    });
 }
 
 fn arena<P: PT, T: Val>(m: &PrefixMap<P, T>, o: &mut String) {
